@@ -89,6 +89,7 @@ SAFE_PATTERNS = [
     re.compile(r"core::option::Option::<T>::(ok_or|ok_or_else|map|map_or|map_or_else|and_then|or|or_else|unwrap_or|unwrap_or_else|unwrap_or_default|filter|copied|cloned|as_ref|as_mut|take|is_some_and|is_none_or|xor|zip|iter)"),
     re.compile(r"core::result::Result::<T, E>::(map|map_err|and_then|or_else|unwrap_or|unwrap_or_else|unwrap_or_default|ok|err|as_ref|as_mut|is_ok_and|is_err_and|iter)"),
     re.compile(r"core::ops::(Range|RangeInclusive|RangeFrom|RangeTo|RangeToInclusive)::<Idx>::(contains|is_empty|start|end)"),
+    re.compile(r"core::str::(error::)?Utf8Error::(valid_up_to|error_len)"),    # field accessors
     re.compile(r"core::cmp::(min|max|Ord::min|Ord::max|PartialOrd::(lt|le|gt|ge)|PartialEq::(eq|ne))"),
     re.compile(r"core::cmp::impls::<impl core::cmp::(Ord|PartialOrd|PartialEq) for ([iu](8|16|32|64|128|size)|char|bool)>::(cmp|partial_cmp|eq|ne|lt|le|gt|ge|min|max)"),
     re.compile(r"core::iter::Iterator::(position|any|all|find|find_map|filter_map|rev|zip|chain|copied|cloned|last|nth|peekable|take_while|skip_while|map_while|inspect|fuse|flatten|flat_map|for_each|fold|max|min|max_by_key|min_by_key|max_by|min_by|by_ref)"),
